@@ -12,11 +12,13 @@
     WalkGetAttr below version 2 = Walk + GetAttr, ReadAt/WriteAt = C11's chunk)
     are modelled as functions in Client/Composed.v (theorems C03_xattr_..., C03_walkgetattr_fallback);
     their tie to the source is the statement text in the reviewed table.
-    _partial: the handler table (ClientModel.handler_calls) is hand-written and tied
-    by the differential only; the result mapping is proved for the client half
+    The server half (ClientModel.handler_calls) is proved equal to the interpretation of the
+    backend-call events go2coq's HandlerGen extracts from p9/handlers.go (C03_handler_table).
+    _partial: the handlers of Twalk/Twalkgetattr/Txattrwalk/Tattach (loops and branches) are
+    modelled by hand and tied by the differential only; the result mapping is proved for the client half
     (C03_returns) and for errors (C03_errno_...). *)
 From Coq Require Import ZArith NArith String List Bool.
-From P9V Require Import gen.ConstGen gen.ClientGen Client.Chunk Client.ClientModel Client.ClientProofs Client.Errs Client.Composed.
+From P9V Require Import gen.ConstGen gen.ClientGen Client.Chunk Client.ClientModel Client.ClientProofs Client.Errs Client.Composed Client.HandlerTie.
 Import ListNotations.
 Open Scope string_scope.
 
@@ -147,3 +149,19 @@ Theorem C03_walkgetattr_fallback : forall v e, (v < 2)%N -> e_param e "component
   [mkbc "Walk" (OnFid (e_fid e)) [VL []]; mkbc "GetAttr" (OnFid (e_newfid e)) [VR (repeat 1%N 14)]].
 Proof. exact walkgetattr_fallback. Qed.
 Print Assumptions C03_walkgetattr_fallback.
+
+(** ---- the server half comes from handlers.go ---- *)
+
+(** for the 22 T-messages whose handler makes one backend call: the call of the model is the call of the
+    handler's trace in gen/HandlerGen.v — receiver (the fid's File, or its parent's), method, argument
+    expressions (t.<Field>, the uid handed down by the Tu* wrapper or NoUID, refTarget.file, int(t.PID),
+    the entry's name read under the rename lock) *)
+Theorem C03_handler_table : forall t fs, In t simple_handlers ->
+  handler_calls (t, fs) = gen_handler_calls t fs.
+Proof. exact handler_table_generated. Qed.
+Print Assumptions C03_handler_table.
+
+Theorem C03_handler_table_remove : forall fs,
+  handler_calls ("tremove", fs) = (gen_handler_calls "tremove" fs ++ [mkbc "Close" (OnFid (fidof (fld "fid" fs))) []])%list /\
+  In "call:f.file.Close()" (events "fidRef.DecRef").
+Proof. exact handler_table_remove. Qed.
